@@ -97,7 +97,12 @@ def generic_run(scenario, run_case, props, seed, n, rule, nontrivial_key=None):
     import collections
     findings = []; stats = collections.Counter(); distinct = set(); samples = []
     for i in range(n):
-        viol, tags, desc, outcome = run_case(seed, i, props)
+        try:
+            viol, tags, desc, outcome = run_case(seed, i, props)
+        except Exception as e:          # an exception escaping the scenario itself: library code failed where the scenario expects none
+            import traceback
+            viol = [(f'{pid} unexpected {type(e).__name__} while exercising the scenario', traceback.format_exc()[-600:]) for pid in sorted(props)]
+            tags, desc, outcome = {'scenario-exception'}, {'wbs': [], 'exception': repr(e)[:200]}, 'exception'
         stats['cases'] += 1; stats['outcome:' + str(outcome)] += 1
         key = jdump(desc if nontrivial_key is None else nontrivial_key(desc))
         if key != 'null': distinct.add(hash(key))
